@@ -18,8 +18,8 @@ CLAIMED = {
          "construction from bigram.right/left/cost text (from_readers, template split, interning) is outside the claim; ScorerBuilder::build on concrete key sets is attempted in the thorough tier (BTreeMap iteration does not fold: non-core); AVX2 path not modelled by Kani"),
  "C08": ("system {a} + user {ab} vs system {a,ab} with shared symbolic parameters: same optimal cost, same candidate counts, the user word offered as a user-lexicon candidate with the same prefix minimum, system words still available; reset_user_lexicon_from_reader(None) removes every user candidate",
          "loading/replacing a user lexicon from CSV text is outside the claim (WordMapBuilder's BTreeMap and the crawdad builder do not fold under CBMC); id verification is covered under C10 (c10_verify_ids)"),
- "C09": ("any 21-byte header different from the current magic followed by a valid body is rejected (all header bytes symbolic); the complete image loads; hand-written decoders on symbolic bytes: U31 and U31x8 reject exactly the out-of-range lanes and every truncated input, the Scorer decoder rejects inconsistent array lengths; thorough tier: every strict prefix of whole images (symbolic truncation point, CBMC path exploration)",
-         "359-695-byte images with empty strings; the truncation-point harnesses use `cbmc --paths lifo` and are non-core (reported as no-verdict if they do not finish within the cap); reader = element-wise CutReader instantiation of the generic Read parameter; stubs: unty::type_equal, alloc::fmt::format"),
+ "C09": ("any 21-byte header different from the current magic followed by a valid body is rejected (all header bytes symbolic); the complete image loads; hand-written decoders on symbolic bytes: U31 and U31x8 reject exactly the out-of-range lanes and every truncated input, the Scorer decoder rejects inconsistent array lengths; every cut point inside the header and inside the trie byte array of a whole image (symbolic cut point per 16-byte window); thorough tier: every strict prefix of a Scorer image with symbolic contents",
+         "images of 340-700 bytes with empty strings; cut points that fall inside a scalar or length field of the bincode body are NOT decided (the symbolic read outcome is merged into the decoded value and nothing downstream folds; two such windows stay registered as non-core to document the no-verdict) - there the claim rests on the decoders propagating read errors, checked at codec level (U31, U31x8, Scorer truncation); reader = element-wise CutReader instantiation of the generic Read parameter; stubs: unty::type_equal, alloc::fmt::format"),
  "C10": ("numeric/packing kernels: CharInfo::new bit packing for all inputs; mapping validation (see C06); accepted-dictionary-implies-safe-use through the C01 pipeline instances",
          "totality over arbitrary file bytes is not decided (parsers over >5 arbitrary bytes are out of reach); listed in DESIGN"),
  "C12": ("pairs of re-spaced sentences tokenized in one query by two workers of one tokenizer with symbolic costs: same tokens, ids, total costs; ignore_space rejected without SPACE category",
